@@ -2,6 +2,7 @@
 import Verif.Common.Proto
 import Verif.C15.Model
 import Verif.C15.Text
+import Verif.C15.Lex
 open Lean Verif.Proto Verif.C15
 
 namespace Verif.C15.Driver
@@ -278,7 +279,12 @@ def handleItems (j : Json) : Except String Json := do
     let wantText := match j.getObjVal? "text" with
       | .ok (Json.bool false) => false
       | _ => true
+    let jLex (r : Except Err (List Tok)) : Json := match r with
+      | .ok ts => jList jTok ts
+      | .error e => jErr (errTag e)
     pure (Json.mkObj ((if wantText then [("text", cps (fmtFile items)),
+        -- the lexer model on the model's own text: must be the tokens above (and the real lexer's)
+        ("lex", jLex (lexText (fmtFile items))),
         ("text2", jParse parsed (fun its => cps (fmtFile its)))] else []) ++ [
       ("orig", jList jItem items),
       ("toks", jList jTok toks),
@@ -308,6 +314,10 @@ def handle (j : Json) : Except String Json := do
   | "toks" => do
     let ts ← (← getArr j "toks").mapM ofTok
     pure (jParse (parseFile ts) (jList jItemRaw))
+  | "lex" => do
+    match lexText (← getCps j "text") with
+    | .ok ts => pure (jList jTok ts)
+    | .error e => pure (jErr (errTag e))
   | "doc" => do
     let d ← getCps j "doc"
     let ind ← getNat j "indent"
